@@ -384,6 +384,8 @@ def depth_reduction_frames(stream):
         depth = k
         rollup = True
       elif w in (0x142D, 0x142C, 0x1420, 0x1429, 0x142F):
+        if reduced:
+          out.add(fr + j)               # (the frame of the closing word itself still shows the state before it)
         reduced = False
         if w in (0x1420, 0x1429, 0x142F):
           rollup = False
